@@ -2,8 +2,12 @@ package props
 
 import (
 	"fmt"
+	"go/ast"
+	"go/parser"
+	"go/token"
 	"go/types"
 	"reflect"
+	"sort"
 	"strings"
 	"testing"
 
@@ -21,7 +25,49 @@ func c12Gen(t *rapid.T, r *h.Rec) specCase {
 	o := &synth.Opts{Avoid: av, OnExclude: onEx, OnClass: onCl, SubPkgs: true, SameNamePkgs: true, Diamonds: true, RecursiveUnions: true, ForeignUnions: true, ZeroArrays: true, NamedRecursion: true, StdNamedPkgs: true, ShortModule: true, Spelling: true, Unions: 1, Generics: true, NestedGenerics: true, Aliases: true,
 		Recursion: true, Embedded: true, StdTypes: true, FixedArrays: true, Maps: true, Times: true, Pointers: true, RareBasics: true, TagVariety: true,
 		EnumStress: false, MaxDecls: 10, MinDecls: 2}
+	if rapid.IntRange(0, 39).Draw(t, "sameLineDecls") == 0 {
+		// directed, verbatim source (the renderer is gofmt-clean and never writes two declarations on one line):
+		// several declarations on one line, their names in a drawn order
+		names := rapid.Permutation([]string{"Alpha", "Mid", "Zeta"}).Draw(t, "sameLineOrder")
+		bodies := map[string]string{"Alpha": "Alpha int", "Mid": "Mid []Zeta", "Zeta": "Zeta struct{ N Alpha }"}
+		src := "package model\n\ntype First struct{ A int }\n"
+		for i, n := range names {
+			if i > 0 {
+				src += "; "
+			}
+			src += "type " + bodies[n]
+		}
+		src += "\ntype Last map[string]First\n"
+		onCl("source:several_declarations_on_one_line")
+		return specCase{Spec: &synth.Spec{Pkgs: []*synth.Pkg{{Name: "model", Path: synth.Module + "/model", Files: []*synth.File{{Name: "defs.go", Src: src}}}}}}
+	}
 	return specCase{Spec: synth.GenTypes(t, o)}
+}
+
+// declaredTypeNames: the names of the type declarations of a source text, in source order.
+func declaredTypeNames(src string) []string {
+	f, err := parser.ParseFile(token.NewFileSet(), "defs.go", src, 0)
+	if err != nil {
+		return nil
+	}
+	type pn struct {
+		pos  token.Pos
+		name string
+	}
+	var l []pn
+	for _, d := range f.Decls {
+		if gd, ok := d.(*ast.GenDecl); ok && gd.Tok == token.TYPE {
+			for _, sp := range gd.Specs {
+				l = append(l, pn{sp.Pos(), sp.(*ast.TypeSpec).Name.Name})
+			}
+		}
+	}
+	sort.Slice(l, func(i, j int) bool { return l[i].pos < l[j].pos })
+	var out []string
+	for _, x := range l {
+		out = append(out, x.name)
+	}
+	return out
 }
 
 const timeStructString = "struct{wall uint64; ext int64; loc *time.Location}"
@@ -236,7 +282,10 @@ func c12Check(c specCase, r *h.Rec) error {
 			gotOrder = append(gotOrder, s.String())
 		}
 	}
-	if c.Spec.AnalysedFile().Src == "" && strings.Join(gotOrder, ",") != strings.Join(wantOrder, ",") {
+	if raw := c.Spec.AnalysedFile().Src; raw != "" {
+		wantOrder = declaredTypeNames(raw) // verbatim source: the order go/parser reports
+	}
+	if (c.Spec.AnalysedFile().Src == "" || wantOrder != nil) && strings.Join(gotOrder, ",") != strings.Join(wantOrder, ",") {
 		return h.Violf("Source reports declarations %v, the file declares %v in this order\n%s", gotOrder, wantOrder, src())
 	}
 
